@@ -396,6 +396,13 @@ func render(w *Workload) map[string]string {
 	src := map[string]string{}
 	for name, body := range w.Scripts {
 		pre := "v0 = 0\nv1 = 0\nv2 = 0\n"
+		if name != "main.p" && len(body) > 0 && body[0].K == "p" {
+			// a callee that starts with an effect really starts with it: the variable
+			// initialisation comes second (an effect-free first statement would hide a callee
+			// that is entered although the run was already cancelled)
+			src[name] = plgen.Render(body[:1], nil) + pre + plgen.Render(body[1:], nil)
+			continue
+		}
 		src[name] = pre + plgen.Render(body, nil)
 	}
 	return src
